@@ -111,9 +111,13 @@ type Cluster struct {
 	// ObserveFailoverForm: a poll that names another vbUUID than the copy's current one is answered in the hard-failover
 	// form (as a node does when the asked vbUUID is an older entry of its failover log)
 	ObserveFailoverForm bool
-	streams             map[uint16]*Stream
-	reqs                []StreamReq
-	closed              bool
+	// NoClientCloseEnd: the node is a server below 5.5.0: it refuses the control send_stream_end_on_client_close_stream
+	// and sends no STREAM_END after a close request (gocbcore then produces the end notification itself, on the close
+	// acknowledgement)
+	NoClientCloseEnd bool
+	streams          map[uint16]*Stream
+	reqs             []StreamReq
+	closed           bool
 
 	// Version is the implementationVersion served under /pools; BucketType / StorageBackend are served under
 	// /pools/default/buckets/b (Layer C: the real dcp.NewDcp bootstraps over HTTP).
@@ -538,7 +542,11 @@ func (n *Node) handle(cn *Conn, p *memd.Packet, e *Entry) {
 	case memd.CmdDcpControl:
 		c.mu.Lock()
 		c.controls = append(c.controls, DcpControl{Node: n.Idx, Conn: cn.id, Key: string(p.Key), Value: string(p.Value)})
+		old := c.NoClientCloseEnd
 		c.mu.Unlock()
+		if old && string(p.Key) == "send_stream_end_on_client_close_stream" {
+			res.Status = memd.StatusInvalidArgs // a server that does not know the control (before 5.5.0)
+		}
 	case memd.CmdSelectBucket, memd.CmdNoop:
 	case memd.CmdDcpOpenConnection:
 		cn.Dcp = true
